@@ -20,7 +20,7 @@ import math
 from streams.cluster import T0, hx
 
 HEADER = 3
-REQUIRED_SHAPES = ["load_bound_checked", "load_factor_configured", "join", "leave", "coordinator_left", "rejoin_same_address", "previous_owner_listed", "previous_owner_pruned",
+REQUIRED_SHAPES = ["periodic_push_prunes_emptied_owners", "load_bound_checked", "load_factor_configured", "join", "leave", "coordinator_left", "rejoin_same_address", "previous_owner_listed", "previous_owner_pruned",
                    "fill_compared", "stable_dump", "client_table", "backups_checked", "replica_shortage", "same_owner_everywhere"]
 
 
@@ -152,6 +152,16 @@ class Oracle:
                 return "members disagree on the member ids: %s" % sorted(set(kv["disc"] for kv in views.values()))
             live = mems(views[oldest]["disc"])
             table = tables.pop()
+            if getattr(self, "periodic", False) and all("plen" in kv for kv in views.values()):
+                # left to its periodic push: an owner listed in front of the current one still holds data of the partition
+                self.hit("periodic_push_prunes_emptied_owners")
+                for pi, row in enumerate(table.split("~")):
+                    owners = mems(row.split("/")[0])
+                    for o in owners[:-1]:
+                        mi = int(o.split(".")[0])
+                        if mi in views and int(views[mi]["plen"].split(";")[pi]) == 0:
+                            return ("partition %d still lists member %s, which holds nothing of it, %s after the hand-over: the periodic routing push "
+                                    "of the current coordinator (member %d, not the founding one) does not prune it" % (pi, o, "1.5 s (ten push periods)", oldest))
             self.last_table = table
             N = len(live)
             for pi, row in enumerate(table.split("~")):
@@ -215,7 +225,38 @@ class Gen:
     def __init__(self, rng, tier="quick"):
         self.rng = rng
 
+    def periodic(self, orc):
+        """directed: the periodic routing push left to itself (150 ms, real time), never pushed by hand.  The founding
+        coordinator leaves; under the next coordinator a member joins and the balancers hand the data over; a second and a
+        half later every member holds the same table and nobody is listed for a partition it holds nothing of."""
+        r = self.rng
+        yield "watchdog 300s"
+        yield "clock 0"
+        yield "c.new n=3 r=1 w=1 rq=1 parts=%d tsize=4096 push_ms=150" % r.choice([7, 11])
+        for i in range(16):
+            yield "r.put emb %d dm %s %s" % (r.randrange(3), hx(b"k%d" % i), hx(b"v"))
+        yield "c.stop 0"
+        rep = yield "c.converge"
+        if rep == "not-converged":
+            return
+        yield "c.add nosync"
+        rep = yield "c.converge"
+        if rep == "not-converged":
+            return
+        for i in range(16, 24):
+            yield "r.put emb %d dm %s %s" % (r.choice([1, 2, 3]), hx(b"k%d" % i), hx(b"v"))
+        for _ in range(3):
+            yield "c.balanceall"
+            yield "c.wait 300"
+        yield "c.wait 900"
+        orc.periodic = True
+        yield "rt.dump"
+        orc.periodic = False
+
     def episode(self, orc, nops):
+        if getattr(self, "ep", 0) % 5 == 3:
+            yield from self.periodic(orc)
+            return
         r = self.rng
         R = r.choice([1, 2, 2, 3])
         parts = r.choice([5, 7, 11, 31, 47])
